@@ -16,7 +16,7 @@ ASSUMPTIONS = ['metadata round-trip theorem: non-empty key-unique maps whose key
 THEOREM = 'C15_symmetric_last_write_wins / C15_len_and_items / C15_negative_rejected / C15_metadata_roundtrip / C15_metadata_reserved_rejected'
 
 HEADER = '''From Coq Require Import String List ZArith.
-From Hpotk Require Import Base.Result Base.Emit Sim.Model Corr.C15.
+From Hpotk Require Import Base.Result Base.Emit Sim.Model Sim.Csv Corr.C15.
 Import ListNotations.
 Open Scope string_scope.
 Open Scope list_scope.'''
@@ -37,6 +37,10 @@ def render(case, obs):
         steps = clist([ctuple([cstr(a), cstr(b), cstr(tok), cbool(st['accepted']), crb(st['rb'])])
                        for (a, b, tok), st in zip(case['ops'], obs['steps'])])
         return f'(CHistory {clist([cstr(k) for k in case["keys"]])} {steps})'
+    if case['kind'] == 'csv_write':
+        return f'(CCsvWrite {clist([cstr(x) for x in case["fields"]])} {cstr(obs["line"])})'
+    if case['kind'] == 'csv_read':
+        return f'(CCsvRead {cstr(case["line"])} {clist([cstr(x) for x in (obs["fields"] or [])])})'
     if case['kind'] == 'meta_to_str':
         m = clist([ctuple([cstr(k), cstr(v)]) for k, v in case['meta']])
         r = f'(Ok {cstr(obs["ok"])})' if 'ok' in obs else f'(Err {cexn(obs["err"])})'
@@ -51,11 +55,22 @@ def evaluate(chk, cases, tag='cases', shard=250):
         obs += chk.run_impl('C15', {'cases': part, 'workdir': str(chk.work)})['cases']
     bad = [i for i, o in enumerate(obs) if 'crash' in o]
     live = [i for i in range(len(cases)) if i not in set(bad)]
+    file_cases = [i for i in live if cases[i]['kind'] == 'csv_file']
+    live = [i for i in live if cases[i]['kind'] != 'csv_file']
     terms = {i: render(cases[i], obs[i]) for i in live}
     extra = []
     # the header line of a successfully encoded metadata map: frame/unframe agree with the model
     fr = [(i, obs[i]) for i in live if cases[i]['kind'] == 'meta_to_str' and 'ok' in obs[i]]
     fterms = [f'(CFrame {cstr(o["ok"])} {cstr(o["line"])})' for _, o in fr]
+    for i in file_cases:
+        o = obs[i]
+        if o.get('data_lines') is None or len(o['data_lines']) != len(o['rows']):
+            fr.append((i, o))
+            fterms.append('(CCsvWrite [] "the file has another number of data lines than the container has rows")')
+            continue
+        for row, line in zip(o['rows'], o['data_lines']):
+            fr.append((i, o))
+            fterms.append(f'(CCsvWrite {clist([cstr(x) for x in row])} {cstr(line)})')
     allterms = [terms[i] for i in live] + fterms
     f = chk.coq_failing(HEADER, allterms, 'check_ccase', shard=shard, tag=tag)
     failing = sorted({live[j] if j < len(live) else fr[j - len(live)][0] for j in f} | set(bad))
@@ -107,6 +122,19 @@ def gen(chk):
         n = rng.randint(1, 4)
         s = ';'.join(''.join(rng.choice('ab=é ;#') for _ in range(rng.randint(0, 5))) for _ in range(n))
         cases.append({'kind': 'meta_from_str', 's': s})
+    # the CSV row codec: csv.writer / csv.reader against the model, and the rows to_csv really writes
+    alphabet = ['a', 'B', '1', ',', '"', ' ', '#', 'é', ';', '=', "'", '.', ':']
+    for _ in range(1500 if thorough else 400):
+        fields = [''.join(rng.choice(alphabet) for _ in range(rng.randint(0, 5))) for _ in range(rng.randint(1, 4))]
+        cases.append({'kind': 'csv_write', 'fields': fields})
+    for _ in range(1500 if thorough else 400):
+        line = ''.join(rng.choice(alphabet + [',', '"', '"']) for _ in range(rng.randint(0, 12))) + rng.choice(['', '\r\n', '\n'])
+        cases.append({'kind': 'csv_read', 'line': line})
+    for _ in range(300 if thorough else 60):
+        ks = [''.join(rng.choice(alphabet) for _ in range(rng.randint(0, 4))) for _ in range(3)]
+        ops = [(rng.choice(ks), rng.choice(ks), tok(rng.choice(VALS[:2] + EXTRA_VALS[:4] + [0.1, 2.5, 1e-7, 123456789.125]))) for _ in range(rng.randint(0, 6))]
+        ops = [o for o in ops if not o[2].startswith('-')]
+        cases.append({'kind': 'csv_file', 'ops': ops})
     return cases, n_exh
 
 
@@ -154,7 +182,7 @@ def run(chk):
                 'length-3/4 histories, with a full read-back after EVERY step (get for all ordered key pairs, len, sorted items) compared with the model; random '
                 'histories up to length 60 over 7 key alphabets (CURIEs, non-ASCII, commas/quotes, empty key, #-keys) and tiny/huge/zero/-0.0/inf/negative values, '
                 'each followed by a .csv and .csv.gz round trip evaluated on the implementation (similarities by float.hex, metadata); metadata_to_str on random '
-                'maps incl. ; = LF CR (exact string and header line vs the model), metadata_from_str on well- and ill-formed strings')
+                'maps incl. ; = LF CR (exact string and header line vs the model), metadata_from_str on well- and ill-formed strings; csv.writer rows and csv.reader lines over an alphabet with commas, quotes, blanks, #, non-ASCII compared with the row-codec model, and the data lines to_csv writes compared with write_row [a; b; repr(v)]')
     if failing or rtfail:
         report(chk, cases, obs, failing, rtfail)
 
@@ -182,6 +210,8 @@ def model_answer(chk, term):
 
 
 def sig_for(case, is_rt, obs):
+    if case['kind'] in ('csv_write', 'csv_read', 'csv_file'):
+        return 'C15:' + case['kind']
     if case['kind'] == 'history':
         if is_rt:
             probs = [p for e in ('.csv', '.csv.gz') for p in obs.get('roundtrip', {}).get(e, [])]
